@@ -189,6 +189,53 @@ def gen_round2(ctx, thorough):
     return out
 
 
+def gen_round3(ctx, thorough):
+    """(a) error recovery of the reader stack in DTDs x exitOnFirstFatalError x DTD-reading scanners x APIs, (b) DOM heap growth
+    paths x document lifetimes, (c) grammar ownership cross product.  returns list of (case-id, kind, line)"""
+    rng = ctx.rng
+    out = []
+
+    def add(cid, kind, d, kv, op="case"):
+        line = case_line(cid, dict(doc=d["doc"], ext=d.get("ext", {})), kv)
+        if op != "case":
+            line = line.replace("case ", op + " ", 1)
+        out.append((cid, kind, line))
+    # (a)
+    n = 0
+    for i, d in enumerate(G.pe_recovery_docs(rng, 400 if thorough else 40)):
+        for xff in (1, 0):
+            for scn in ("IG", "DG"):
+                for api in (APIS if thorough else [APIS[n % 4]]):
+                    kv = dict(api=api, scn=scn, xff=xff, val=n % 3, ns=(n // 3) % 2, exc=n % 4, mode="reuse" if n % 2 else "fresh",
+                              thr=1, prog=1 if (thorough or n % 3 == 0) else 0, pool=1 if n % 7 == 0 and scn != "DG" else 0)
+                    add("r%d%s-%s-x%d%s" % (n, api, d["tag"], xff, scn), "pe-recovery/" + api, d, kv)
+                    n += 1
+    # (b)
+    hists = ["P", "PA", "PAR", "PP", "PAP", "PXP", "PARP", "PPA", "EP", "PAXP"]
+    n = 0
+    for i, d in enumerate(G.domheap_docs()):
+        for api in ("dom", "ls"):
+            for h in (hists if thorough else [hists[(n + k) % len(hists)] for k in range(3)]):
+                kv = dict(api=api, hist=h, end=n % 2, ents=0 if n % 5 else 1, val=n % 2, ns=n % 2, scn=["IG", "DG", "WF"][n % 3] if n % 2 == 0 else "IG")
+                if kv["scn"] == "WF":
+                    kv["val"] = 0
+                add("g%d%s-%s-%s" % (n, api, d["tag"], h), "domheap/" + api, d, kv, op="domhist")
+                n += 1
+    # (c)
+    n = 0
+    for i, c in enumerate(G.gramown_cases()):
+        scns = ("IG", "SG") if c["kv"]["sch"] and "dtd" not in c["tag"].split("-")[0] else ("IG", "DG")
+        for scn in scns:
+            for mode in ("reuse", "fresh"):
+                for api in (APIS if thorough else [APIS[n % 4]]):
+                    kv = dict(c["kv"])
+                    kv.update(api=api, scn=scn, mode=mode, val=1 if n % 3 else 2, exc=n % 4, thr=1, prog=1 if thorough else 0,
+                              kmax=0 if thorough or not c["kv"]["sch"] else 8)
+                    add("o%d%s-%s-%s-%s" % (n, api, c["tag"], scn, mode), "gramown/" + api, c, kv)
+                    n += 1
+    return out
+
+
 def model_cases(ctx, dflt, nx, na):
     """XMemory and arena request pairs: returns (model requests, harness requests) as lists of (id, line, info)"""
     rng = ctx.rng
@@ -715,7 +762,7 @@ def run(ctx):
     stats = {}
     # ---- 1. main sweep ------------------------------------------------------------------------------
     ndocs = 4000 if thorough else 72
-    sweep = gen_sweep(ctx, ndocs) + gen_round2(ctx, thorough)
+    sweep = gen_sweep(ctx, ndocs) + gen_round2(ctx, thorough) + gen_round3(ctx, thorough)
     nchunks = 8
     chunks = [[] for _ in range(nchunks)]
     for i, c in enumerate(sweep):
